@@ -19,7 +19,7 @@ PROJECT_B = {
     'pk/mod.py': '"""Module. See L{Base.Nested}, L{Hid} and L{Sub.p}."""\nimport os\nCONST = 1\nvar = []\n'
                  'class Base:\n    "Base doc. L{Hid.meth}"\n    def m(self):\n        "doc m"\n    def _priv(self): pass\n'
                  '    def over(self): "overridden below"\n    class Nested:\n        x = 1\n        def deep(self): pass\n'
-                 'class Hid(Base):\n    "to be hidden"\n    def meth(self): "doc"\n    def over(self): "hidden override"\n'
+                 'class Hid(Base):\n    "to be hidden"\n    def meth(self): "doc"\n    def over(self): "hidden override"\n    def undoc_in_hidden(self): pass\n'
                  'class Sub(Hid):\n    "Sub doc L{Base.m}"\n    def m(self): pass\n    def over(self): pass\n'
                  '    @property\n    def p(self): return 1\n    @classmethod\n    def cm(cls): pass\n'
                  'def f(): pass\ndef f():\n    "second f"\n'
